@@ -139,25 +139,32 @@ func BlameCut(d *refmodel.Datum, k int, accepted CutOracle, standalone func(*ref
 	}
 	rel := sp.Path[len(ctxPath):]
 	cname := "ctx=" + ctxName(ctx.T.Kind)
-	// reduce lists/maps on the way to single entries is not attempted: the
-	// replacement below needs single-entry containers and is skipped
-	// otherwise
 	intD := Dist(refmodel.Atom('i'))
+	// a struct context: replace its member on the way to the cut element
+	// (whatever it contains) by an integer cut in its middle
+	if ctx.T.Kind == refmodel.Tuple || ctx.T.Kind == refmodel.Struct {
+		if nd, ok := refmodel.Replace(ctx, rel[:1], intD); ok {
+			_, nsp := refmodel.EncodeSpans(nd)
+			if st, ok := startOf(nsp, rel[:1]); ok && accepted(nd, st+2) {
+				return cname + "/any-leaf", nd, st + 2
+			}
+		}
+	}
 	if nd, ok := refmodel.Replace(ctx, rel, intD); ok {
 		_, nsp := refmodel.EncodeSpans(nd)
 		if st, ok := startOf(nsp, rel); ok {
 			if accepted(nd, st+2) {
 				return cname + "/any-leaf", nd, st + 2
 			}
-			// 4. does the context matter?
-			relOff := k - leafStart
-			if standalone(refmodel.TupleOf(leaf.T)) {
-				tup := &refmodel.Datum{T: refmodel.TupleOf(leaf.T), Elems: []*refmodel.Datum{leaf}}
-				lst := &refmodel.Datum{T: refmodel.ListOf(leaf.T), Elems: []*refmodel.Datum{leaf}}
-				if accepted(tup, relOff) && accepted(lst, 4+relOff) {
-					return leafName + "/in-any-composite", tup, relOff
-				}
-			}
+		}
+	}
+	// 4. does the context matter?
+	relOff := k - leafStart
+	if standalone(refmodel.TupleOf(leaf.T)) {
+		tup := &refmodel.Datum{T: refmodel.TupleOf(leaf.T), Elems: []*refmodel.Datum{leaf}}
+		lst := &refmodel.Datum{T: refmodel.ListOf(leaf.T), Elems: []*refmodel.Datum{leaf}}
+		if accepted(tup, relOff) && accepted(lst, 4+relOff) {
+			return leafName + "/in-any-composite", tup, relOff
 		}
 	}
 	return cname + "/" + leafName, ctx, k - ctxStart
